@@ -8,7 +8,7 @@ WB = "internal/zzverif/wbuild"
 
 
 def run(tier, seed):
-    c = vlib.GoCheck("C13", "translation_validation", tier, seed)
+    c = vlib.GoCheck("C13", "model_checking", tier, seed)
     wa_src, go_src, cases = c13gen.gen(tier)
     c.assumptions = [
         "program dimension: %d generated functions = key kind (i32, string, i64, struct in quick; plus u8, f64 without NaN, bool, interface holding int or string in thorough) x operation script of five operations (insert, overwrite, read-modify-write, delete, comma-ok lookup on three keys; len after every operation), followed by a range loop (each visited key must be found with the visited value; count and a commutative sum of values are compared) and lookups of all three keys" % len(cases),
